@@ -1994,9 +1994,15 @@ fn c18_client_part(rt: &FfiRuntime, thorough: bool) -> Stats {
     st
 }
 
-/// conditions under which the call itself reports an error
-fn c18_call_errors(rt: &FfiRuntime) -> Stats {
+/// conditions under which the call itself reports an error. The calls with invalid parameters run
+/// in a child process (`part == 1`): a library that panics inside an `extern "C"` function aborts
+/// the whole process, and that must be a verdict about the library, not the end of the checker.
+fn c18_call_errors(rt: &FfiRuntime, part: u8) -> Stats {
     let mut st = Stats::default();
+    if part == 1 {
+        c18_invalid_parameter_calls(rt, &mut st);
+        return st;
+    }
     // (a) no connection / disabled: the call is accepted, the callback reports NoConnection
     {
         let refusing = crate::ffiutil::RefusingPort::new();
@@ -2107,7 +2113,12 @@ fn c18_call_errors(rt: &FfiRuntime) -> Stats {
             st.violation(Violation { signature: "MACHINERY:ffi-client-did-not-connect".into(), summary: "queue-full scenario".into(), replay: json!({}) });
         }
     }
-    // (c) parameter validation: invalid ranges, null channel: error code, exactly one completion callback, on_destroy once
+    st
+}
+
+/// (c) parameter validation: invalid ranges, null channel: error code, exactly one completion
+/// callback, on_destroy once; (d) list reuse
+fn c18_invalid_parameter_calls(rt: &FfiRuntime, st: &mut Stats) {
     {
         let peer = spawn_peer(PeerBehaviour::Good, false);
         let fc = FfiClient::new(rt, peer.addr, 4, (1000, 1000), decode_nothing());
@@ -2204,6 +2215,65 @@ fn c18_call_errors(rt: &FfiRuntime) -> Stats {
         st.evaluations += 1;
         if rc != perr(ffi::ParamError::NullParameter) || st2.lock().unwrap().completions.len() != 1 || *d2.lock().unwrap() != 1 {
             st.violation(Violation { signature: "null-channel".into(), summary: format!("rc {rc} callbacks {:?} on_destroy {}", st2.lock().unwrap().completions, d2.lock().unwrap()), replay: json!({}) });
+        }
+    }
+}
+
+/// entry point of the child process: prints one JSON line with what it found
+pub fn c18_child_main() -> i32 {
+    let st = on_plain_thread(|| {
+        let rt = FfiRuntime::new(4);
+        c18_call_errors(&rt, 1)
+    });
+    let v: Vec<serde_json::Value> = st.violations.iter().map(|v| json!({"signature": v.signature, "summary": v.summary})).collect();
+    println!("C18CHILD {}", json!({"evaluations": st.evaluations, "classes": st.classes, "distinct": st.distinct.len(), "violations": v}));
+    0
+}
+
+/// run the invalid-parameter calls in a child process and merge what it reports
+fn c18_invalid_parameters_in_child() -> Stats {
+    let mut st = Stats::default();
+    let exe = match std::env::current_exe() {
+        Ok(e) => e,
+        Err(e) => {
+            st.violation(Violation { signature: "MACHINERY:child".into(), summary: e.to_string(), replay: json!({}) });
+            return st;
+        }
+    };
+    let out = std::process::Command::new(exe).arg("c18-child").output();
+    match out {
+        Err(e) => st.violation(Violation { signature: "MACHINERY:child".into(), summary: e.to_string(), replay: json!({}) }),
+        Ok(o) => {
+            let stdout = String::from_utf8_lossy(&o.stdout).to_string();
+            let line = stdout.lines().find_map(|l| l.strip_prefix("C18CHILD "));
+            match (o.status.code(), line.and_then(|l| serde_json::from_str::<serde_json::Value>(l).ok())) {
+                (Some(0), Some(v)) => {
+                    st.evaluations += v["evaluations"].as_u64().unwrap_or(0);
+                    if let Some(m) = v["classes"].as_object() {
+                        for (k, n) in m {
+                            *st.classes.entry(k.clone()).or_insert(0) += n.as_u64().unwrap_or(0);
+                        }
+                    }
+                    for k in 0..v["distinct"].as_u64().unwrap_or(0) {
+                        st.observe(&("c18-child", k));
+                    }
+                    for x in v["violations"].as_array().cloned().unwrap_or_default() {
+                        st.violation(Violation { signature: x["signature"].as_str().unwrap_or("?").to_string(), summary: x["summary"].as_str().unwrap_or("").to_string(), replay: json!({"kind": "c18-call-errors"}) });
+                    }
+                }
+                (code, _) => {
+                    // the process died inside the library (a panic cannot unwind out of an extern "C" function)
+                    let err = String::from_utf8_lossy(&o.stderr).to_string();
+                    let tail: Vec<&str> = err.lines().rev().take(6).collect::<Vec<_>>().into_iter().rev().collect();
+                    st.evaluations += 1;
+                    st.class("call:parameter-validation");
+                    st.violation(Violation {
+                        signature: "c-abi-call-aborts-the-process:invalid-parameters".into(),
+                        summary: format!("a C-ABI call with invalid parameters (empty / overflowing range, over-limit count, null channel, reused list) ended the calling process (exit status {code:?}); the Rust API returns an error for the same arguments. Last output: {}", tail.join(" | ")),
+                        replay: json!({"kind": "c18-call-errors"}),
+                    });
+                }
+            }
         }
     }
     st
@@ -2824,7 +2894,16 @@ pub fn check_c18(tier: &str) -> i32 {
         let rt = FfiRuntime::new(4);
         let a = c18_client_part(&rt, thorough);
         let b = c18_server_part(&rt, thorough);
-        let c = c18_call_errors(&rt);
+        let mut c = c18_call_errors(&rt, 0);
+        let child = c18_invalid_parameters_in_child();
+        c.evaluations += child.evaluations;
+        for (k, n) in child.classes {
+            *c.classes.entry(k).or_insert(0) += n;
+        }
+        c.distinct.extend(child.distinct);
+        for v in child.violations {
+            c.violation(v);
+        }
         let d = c18_enums(&rt);
         let e = c18_tls(&rt);
         let f = c18_serial(&rt);
@@ -2857,7 +2936,11 @@ pub fn replay_c18(v: &serde_json::Value) -> Vec<(String, String)> {
                 c18_client_case(&rt, op, peer, unit, timeout, &mut st)
             }
             Some("c18-server") => c18_server_part(&rt, false).violations.into_iter().map(|x| (x.signature, x.summary)).collect(),
-            Some("c18-call-errors") => c18_call_errors(&rt).violations.into_iter().map(|x| (x.signature, x.summary)).collect(),
+            Some("c18-call-errors") => {
+                let mut v: Vec<(String, String)> = c18_call_errors(&rt, 0).violations.into_iter().map(|x| (x.signature, x.summary)).collect();
+                v.extend(c18_invalid_parameters_in_child().violations.into_iter().map(|x| (x.signature, x.summary)));
+                v
+            }
             _ => c18_enums(&rt).violations.into_iter().map(|x| (x.signature, x.summary)).collect(),
         }
     })
